@@ -215,12 +215,76 @@ def formatter_agreement(tier):
                    "real format_plain / format_lines / format_json / format_lines_subset parsed back and compared per category")
 
 
+def cli_agreement(tier):
+    """the real `reuse lint --lines` and `reuse lint-file --lines` on real trees, under several spellings of the root"""
+    import os, shutil, tempfile, warnings
+    from click.testing import CliRunner
+    from reuse.cli.main import main
+    os.environ["_SUPPRESS_DEP5_WARNING"] = "1"
+    warnings.simplefilter("ignore")
+    H = "# SPDX-FileCopyrightText: Jane\n# SPDX-License-Identifier: MIT\n"
+    files = {"src/ok.py": H, "src/no_licence.py": "# SPDX-FileCopyrightText: Jane\n", "src/deep/no_both.py": "x = 1\n",
+             "missing.py": "# SPDX-FileCopyrightText: Jane\n# SPDX-License-Identifier: 0BSD\n", "with space.py": "y = 2\n",
+             "LICENSES/MIT.txt": "m"}
+    top = tempfile.mkdtemp(prefix="c13_")
+    root = os.path.join(top, "proj")
+    failures, cases = [], 0
+    cwd0 = os.getcwd()
+    try:
+        for rel, data in files.items():
+            p = os.path.join(root, rel)
+            os.makedirs(os.path.dirname(p), exist_ok=True)
+            with open(p, "w") as fp:
+                fp.write(data)
+        os.makedirs(os.path.join(top, "sibling"))
+        os.symlink(root, os.path.join(top, "link"))
+        targets = [f for f in files if not f.startswith("LICENSES/")]
+        spellings = [("absolute root", top, root), ("relative root with ..", os.path.join(top, "sibling"), "../proj"),
+                     ("root through a symlink", top, os.path.join(top, "link")), ("root '.'", root, "."),
+                     ("root '..' from a subdirectory", os.path.join(root, "src"), "..")]
+
+        def per_file(text, rootspelled, cwd):
+            out = {}
+            for line in text.splitlines():
+                path, _, msg = line.rpartition(": ")
+                if msg.startswith(("missing license", "no license identifier", "no copyright notice")):
+                    real = os.path.realpath(path if os.path.isabs(path) else os.path.join(cwd, path))
+                    out.setdefault(os.path.relpath(real, os.path.realpath(root)), set()).add(msg)
+            return out
+        for label, cwd, spelled in spellings:
+            os.chdir(cwd)
+            r = CliRunner().invoke(main, ["--root", spelled, "--no-multiprocessing", "lint", "--lines"])
+            lint = per_file(r.stdout, spelled, cwd)
+            for k in (1, 2, len(targets)):
+                import itertools
+                for sub in itertools.combinations(targets, k):
+                    cases += 1
+                    args = [os.path.join(spelled, t) for t in sub]
+                    r2 = CliRunner().invoke(main, ["--root", spelled, "--no-multiprocessing", "lint-file", "--lines"] + args)
+                    got = per_file(r2.stdout, spelled, cwd)
+                    want = {f: v for f, v in lint.items() if f in sub}
+                    crashed = r2.exception is not None and not isinstance(r2.exception, SystemExit)
+                    if crashed or got != want or r2.exit_code != (1 if want else 0):
+                        failures.append({"root": label, "files": list(sub), "replayed": True,
+                                         "problem": f"lint-file says {sorted((f, sorted(v)) for f, v in got.items())} exit {r2.exit_code}, lint says "
+                                                    f"{sorted((f, sorted(v)) for f, v in want.items())} for the same files"[:600]})
+                if len(failures) > 8:
+                    break
+    finally:
+        os.chdir(cwd0)
+        shutil.rmtree(top, ignore_errors=True)
+    return Bounded("cli-agreement", "one tree (5 source files: compliant, no licence, nothing, missing licence text, name with a space) x 5 root "
+                   "spellings (absolute, relative with '..', through a symlink, '.', '..' from a subdirectory) x every 1-, 2- and 5-file "
+                   "subset: per-file lines and exit status of `lint-file` against `lint`", cases, failures[:8], "real CLI through click's CliRunner")
+
+
 def run(ctx):
     e = engine(ctx)
     verify_all(ctx, e, FUNCTIONS)
     lemmas(ctx, e, "C13")
     assumed_contracts(ctx, e, "C13")
     ctx.bounded.append(formatter_agreement(ctx.tier))
+    ctx.bounded.append(cli_agreement(ctx.tier))
     ctx.assume("json.dumps serialises what to_dict_lint returns; click.echo prints its argument")
     ctx.assume("the rendered texts of the four formatters are compared by the bounded check only (their loops are not under contract)")
     ctx.assume("lint-file path handling (resolve(), relative/absolute spellings) is the subset clause of is_path_ignored (C03)")
